@@ -11,6 +11,8 @@ open AcmedVerif.Props.C11Indep
 #print axioms ghost_not_read
 #print axioms key_change_is_for_all_endpoints
 #print axioms held_kept_by_sync
+#print axioms held_kept_by_sync_full_is_false
+#print axioms heldP_kept_by_sync
 #print axioms held_of_new_account
 #print axioms held_kept_by_load
 #print axioms held_kept_by_history
